@@ -139,6 +139,12 @@ func countCase(run *common.Run, r resultT, cls string) {
 		return
 	}
 	run.Hit("ctx:" + c.Ctx)
+	if c.Ctx == "defineloop" {
+		run.Hit("defineloop-callee:" + c.Callee)
+		for _, k := range c.Capture {
+			run.Hit("defineloop-capture:" + k)
+		}
+	}
 	if c.Ctx == "condloop" {
 		callee := c.Callee
 		if c.Dir == "meth" {
